@@ -907,6 +907,7 @@ func TestCheck(t *testing.T) {
 		vcommon.E("registry", enumRegistry, checkRegistry),
 		vcommon.S("defun", 32000, 800000, genDefun(), checkDefun),
 		vcommon.S("shadow", 64000, 1600000, genShadow(), checkShadow),
+		vcommon.S("redef", 24000, 600000, genRedef(), checkRedef),
 	)
 }
 
